@@ -79,6 +79,11 @@ def scen(w, template="enter,inside,leave", kinds="r"):
 
 SCENARIOS = {}
 
+
+def scen_ind(w, start="outside", kinds="rd"):
+    from harness import inductive
+    inductive.step(w, "C03", start, kinds)
+
 META = {
     "assumptions": [
         "floats modelled as reals; hypot by contract (polynomial)",
@@ -107,6 +112,14 @@ def plan(tier):
     add("k3-frame-episode", "frame,enter,leave")
     add("k2-arcs", "arcs,arcs", "rd")
     add("k3-any", "any,any,any")
+    from harness import inductive
+    for start in ("outside", "inside"):
+        SCENARIOS["ind-" + start] = scen_ind
+        out.append(Scenario("ind-" + start, scen_ind, params={"start": start, "kinds": "rd"},
+                            cover=["shape-" + s.tag for s in inductive.SHAPES] + ["ends-inside", "ends-outside"],
+                            bounds={"K": "1 step from an arbitrary invariant state (all history lengths)",
+                                    "alphabet": [s.tag for s in inductive.SHAPES]},
+                            excludable=inductive.EXCLUDABLE))
     if tier == "thorough":
         add("k4-frame-episode", "frame,enter,inside,leave", "rd")
         add("k4-episode-2", "enter,inside,inside,leave")
